@@ -212,6 +212,21 @@ def ad_selfcheck(ctx, s, p, var, d_exact):
         ctx.hist("oracle_selfcheck_failures", S.show(s)[:120] + " @ " + S.show_point(p) + " d/d" + var)
 
 
+def tree_in_scope(s, pts=None):
+    """Scope filter for simplification / as_expression(): the tree has no out-of-scope variable-free
+    part and evaluates within [1e-60, 1e60] (definedness ignored) at one point at least - a sub-tree
+    that simplification turns into a constant then has an in-scope value as well."""
+    if not varfree_in_scope(s):
+        return False
+    names = sorted(S.variables(s))
+    cand = list(pts or [])
+    cand += [{v: 1.5 for v in names}, {v: -0.5 for v in names}, {v: 2 for v in names}]
+    for p in cand:
+        if all(v in p for v in names) and not R.NORMAL.evaluate(s, p).oos:
+            return True
+    return False
+
+
 def varfree_in_scope(s):
     """Scope filter to run BEFORE the library sees a tree: every variable-free sub-tree (which the
     simplifier will fold by evaluating it) must stay within [1e-60, 1e60], ignoring definedness."""
